@@ -68,7 +68,7 @@ EXPRS = ['regex("X\\\\d")', 'regex("X\\\\D")', 'regex("x\\\\d")', '(code := "7")
 
 _FILES = {}
 DESCS = ['A', 'X1', 'Xy', 'R7', 'q']
-MEMOS = ['P', '77', 'x']
+MEMOS = ['P', '77', 'x', None]      # None = the row has no memo column at all
 
 
 def files():
@@ -160,12 +160,22 @@ def _table():
 def _classify(rules_ctx, desc, amount, memo):
     from tally import merchant_utils
     rules, transforms = rules_ctx
-    return merchant_utils.normalize_merchant(desc, rules, amount=amount, field={'memo': memo}, data_source='S', transforms=transforms)
+    return merchant_utils.normalize_merchant(desc, rules, amount=amount, field=({'memo': memo} if memo is not None else {}), data_source='S', transforms=transforms)
 
 
 def _load(which, mode='first_match'):
     from tally import merchant_utils
-    path = files()[which]
+    if which in ('SA', 'SB'):
+        # the SAME path, rewritten with the content of A.rules / B.rules before it is loaded
+        fs = files()
+        spath = os.path.join(os.path.dirname(fs['A']), 'S.rules')
+        with open(fs[which[1]]) as f:
+            text = f.read()
+        with open(spath, 'w') as f:
+            f.write(text)
+        path = spath
+    else:
+        path = files()[which]
     rules = merchant_utils.get_all_rules(path, match_mode=mode)
     transforms = merchant_utils.get_transforms(path, match_mode=mode) if path else []
     return (rules, transforms)
@@ -184,22 +194,22 @@ def sequence(ops, final):
     fs = files()
     table = _table()
 
-    def ob(di: int, ri: int, mi: int) -> bool:
+    def ob(di: int, ri: int, mi: int, m1none: bool) -> bool:
         """
-        pre: 0 <= di < 5 and 0 <= mi < 3 and 0 <= ri < 3
+        pre: 0 <= di < 5 and 0 <= mi < 4 and 0 <= ri < 3
         post: _
         """
         import copy
         amount = REGION_REPR[int(ri)]
         desc = DESCS[int(di)]
         memo = MEMOS[int(mi)]
-        memo1 = 'P'            # t1 = t except for its memo
+        memo1 = None if m1none else 'P'            # t1 = t except for its memo (P, or no memo column)
         from tally import expr_parser, merchant_utils
         reset_tally_caches()
         cur = ([], [])
         ok = True
         for op in ops:
-            if op in ('A', 'B', 'C', 'N'):
+            if op in ('A', 'B', 'C', 'N', 'SA', 'SB'):
                 cur = _load(op)
             elif op == 'c':
                 before_rules = [tuple(str(x) for x in r[:4]) for r in cur[0]]
@@ -217,9 +227,10 @@ def sequence(ops, final):
                     pass
         last = 'N'
         for op in ops:
-            if op in ('A', 'B', 'C', 'N'):
+            if op in ('A', 'B', 'C', 'N', 'SA', 'SB'):
                 last = op
         fin = last if final == '=' else final
+        fin = fin[1] if fin in ('SA', 'SB') else fin        # same content => same expected classification
         if final != '=':
             cur = _load(final)
         got = _digest(_classify(cur, desc, amount, memo))
@@ -264,7 +275,8 @@ def sequences(tier, seed):
     rng = random.Random(700 + seed)
     loads = ['A', 'B', 'C', 'N']
     other = ['c'] + [f'e{k}' for k in range(len(EXPRS))]
-    hand = [(['A', 'c'], '='), (['A', 'c', 'c'], '='), (['B', 'c'], '='), (['C', 'c'], '='), (['A', 'e3', 'c'], '='), (['B', 'e3'], '='),
+    hand = [(['SA', 'c', 'SB'], '='), (['SA', 'SB', 'c'], '='), (['SB', 'SA'], '='), (['SA', 'c'], 'SB'),
+            (['A', 'c'], '='), (['A', 'c', 'c'], '='), (['B', 'c'], '='), (['C', 'c'], '='), (['A', 'e3', 'c'], '='), (['B', 'e3'], '='),
             (['A', 'c'], 'A'), (['A', 'c', 'c'], 'A'), (['A', 'c'], 'B'), (['A'], 'C'), (['A'], 'N'), (['B', 'c'], 'A'), (['A', 'c', 'B'], 'B'),
             (['e0'], 'B'), (['e1'], 'A'), (['e2', 'e0'], 'A'), (['e3'], 'B'), (['e3', 'A', 'c'], 'B'), (['C', 'c'], 'A'), (['B', 'A'], 'C'),
             (['e5', 'e4'], 'A'), (['A', 'B', 'c'], 'A'), (['A', 'c', 'N'], 'B'), (['B', 'c', 'c'], 'B')]
@@ -291,5 +303,5 @@ def obligations(tier, seed):
     for i, (ops, fin) in enumerate(sequences(tier, seed)):
         obs.append(Obligation(id=f'seq-{i:03d}-' + '-'.join(ops) + '-then-' + fin, factory='sequence', params={'ops': ops, 'final': fin},
                               timeout=120 if q else 900, group='history independence',
-                              bounds=f'history {ops}, then {'classify t on the rules already loaded' if fin == '=' else 'load ' + fin + ' and classify t'}; description one of 5 fixtures and memo one of 3 (symbolic index), amount one of 3 region representatives (symbolic indices; t1 = t with memo P)'))
+                              bounds=f'history {ops}, then {'classify t on the rules already loaded' if fin == '=' else 'load ' + fin + ' and classify t'}; description one of 5 fixtures and memo one of 4 (incl. no memo column) (symbolic index), amount one of 3 region representatives (symbolic indices; t1 = t with memo P)'))
     return obs
